@@ -25,10 +25,14 @@ vars == <<pick, scen, st, p, i, rxMode, done, lastBranch>>
 
 Picks ==
   CASE Family = "flow"  -> FlowPicks(N, Phases, MaxChain, Engines, Slice, Slices)
-    [] Family = "match" -> MatchPicks({"ARGS_GET", "ARGS_POST"}, {s_a, s_A, s_b}, {s_x, s_X, s_sx}, N, Phases)
+    [] Family = "select"  -> SelectPicks(N, Phases, Slice, Slices)
+    [] Family = "operate" -> OperatePicks(N, Phases, Slice, Slices)
+    [] Family = "chain"   -> ChainPicks(N, MaxChain, Phases, Slice, Slices)
 ScenOf(pk) ==
-  CASE Family = "flow"  -> FlowScen(pk)
-    [] Family = "match" -> MatchScen(pk)
+  CASE Family = "flow"    -> FlowScen(pk)
+    [] Family = "select"  -> SelectScen(pk)
+    [] Family = "operate" -> OperateScen(pk)
+    [] Family = "chain"   -> ChainScen(pk)
 
 HasRx(sc) ==
   \E ri \in 1..Len(sc.rules) : \E li \in 1..Len(sc.rules[ri].links) :
